@@ -357,6 +357,22 @@ var hdTargets = []mgTarget{
 	{"pkg/handler/handler_sso_proxy.go", "SSOProxy.GetSession", "proxyGetSession"},
 	{"pkg/handler/reverseproxy.go", "ReverseProxy.Handler", "proxyHandler"},
 	{"pkg/handler/reverseproxy.go", "getSessionWithValidToken", "getSessionWithValidToken"},
+	{"pkg/handler/reverseproxy.go", "handleAutologin", "handleAutologin"},
+	{"pkg/handler/handler_sso_proxy.go", "SSOProxy.GetSSOServerURL", "proxyGetSSOServerURL"},
+	{"pkg/handler/handler_sso_proxy.go", "SSOProxy.Login", "proxyLogin"},
+	{"pkg/handler/handler_sso_proxy.go", "SSOProxy.LoginCallback", "proxyLoginCallback"},
+	{"pkg/handler/handler_sso_proxy.go", "SSOProxy.Logout", "proxyLogout"},
+	{"pkg/handler/handler_sso_proxy.go", "SSOProxy.LogoutCallback", "proxyLogoutCallback"},
+	{"pkg/handler/handler_sso_proxy.go", "SSOProxy.LogoutFrontChannel", "proxyLogoutFrontChannel"},
+	{"pkg/handler/handler_sso_proxy.go", "SSOProxy.LogoutLocal", "proxyLogoutLocal"},
+	{"pkg/handler/handler_sso_proxy.go", "SSOProxy.Session", "proxySession"},
+	{"pkg/handler/handler_sso_proxy.go", "SSOProxy.SessionRefresh", "proxySessionRefresh"},
+	{"pkg/handler/handler_sso_proxy.go", "SSOProxy.SessionForwardAuth", "proxySessionForwardAuth"},
+	{"pkg/handler/handler_sso_proxy.go", "SSOProxy.Wildcard", "proxyWildcard"},
+	{"pkg/handler/handler_sso_server.go", "SSOServer.Logout", "serverLogout"},
+	{"pkg/handler/handler_sso_server.go", "SSOServer.LogoutFrontChannel", "serverLogoutFrontChannel"},
+	{"pkg/handler/handler_sso_server.go", "SSOServer.LogoutLocal", "serverLogoutLocal"},
+	{"pkg/handler/handler_sso_server.go", "SSOServer.Wildcard", "serverWildcard"},
 }
 
 func genManager() {
